@@ -27,7 +27,7 @@ func TestC14Stress(t *testing.T) {
 	const sub = "C14.contention_workloads"
 	ev.Rule(sub, "rapid, binary built with -race: generated stack (memory/UDP bases, every layer kind to depth 2, P2PKE and QUIC included), 2-3 nodes, 4-12 goroutines per node mixing Tell, Ask, Receive, ServeAsk, LookupPublicKey, LocalAddrs, MTU for ~150 ms, then Close while calls are still running. Every receive callback checksums its payload at entry, overwrites it with its own pattern (the interface allows modification), yields, and verifies its own pattern at exit; deliveries are checked against the C01 ledger. Oracle: no race report with a frame of the library (reports confined to third-party packages are logged, not counted), callback views stable from entry to exit, ledger holds. non-trivial = >= 2 goroutines per method on one swarm; distinct by (spec, goroutine mix)")
 	rapid.Check(t, func(t *rapid.T) {
-		spec := genSpec(t, specOpts{maxDepth: 2, bases: []string{"mem", "mem", "mem", "udp"}, honestFrag: true, smallQueues: true, transform: true})
+		spec := genSpec(t, specOpts{maxDepth: 2, bases: []string{"mem", "mem", "mem", "udp"}, honestFrag: true, smallQueues: true, transform: true, dupBase: true})
 		switch rapid.IntRange(0, 3).Draw(t, "shortQueueFragmenting") {
 		case 0:
 			// a fragmenting / message-box layer directly on a transport that recycles its few receive buffers quickly
